@@ -18,7 +18,7 @@ META = {
     "level": "model_checking",
     "claim": "For every integer width in the listed set (quick: 1,2,7,8,9,15,16,17,24,31,32,33,48,63,64; thorough: every width 1..128), all three "
              "encodings, both byte orders and all 8 bit offsets, with every bit of the field and its neighbours symbolic, z3 proves that the "
-             "real decoder returns the unsigned / two's-complement value of exactly the field's bits (byte-reversed for whole-byte "
+             "real decoder (also when the encoding carries a context calibrator whose context does not hold) returns the unsigned / two's-complement value of exactly the field's bits (byte-reversed for whole-byte "
              "little-endian fields), as an IntParameter whose raw_value is the value, advancing the cursor by the width. For IEEE 16/32/64 "
              "in both byte orders at all 8 offsets it proves that exactly one struct.unpack call is made with the declared format code and "
              "exactly the field's bytes in stream order; for MIL-STD-1750A that the value is M*2^(E-23) over the reals for the two's-complement "
@@ -47,6 +47,12 @@ def choose(ctx, name, n):
     return ctx.choose(name, n)
 
 
+def unmatched_context(lib):
+    K, C = lib.calibrators, lib.comparisons
+    return [K.ContextCalibrator([C.Comparison("7", "MODE", operator="==", use_calibrated_value=False)],
+                                K.PolynomialCalibrator([K.PolynomialCoefficient(1.5, 0), K.PolynomialCoefficient(2.0, 1)]))]
+
+
 class IntField(Harness):
     kind = "int-field"
 
@@ -54,15 +60,19 @@ class IntField(Harness):
         lib = self.lib
         W = bv.W
         w = self.job["params"]["w"]
-        cfg = choose(ctx, "cfg", len(ENCS) * len(ORDERS) * 8)
-        enc_name, order, off = ENCS[cfg % 3], ORDERS[(cfg // 3) % 2], cfg // 6
+        cfg = choose(ctx, "cfg", len(ENCS) * len(ORDERS) * 8 * 2)
+        enc_name, order, off, ctxcal = ENCS[cfg % 3], ORDERS[(cfg // 3) % 2], (cfg // 6) % 8, bool(cfg // 48)
         nbytes = (off + w + 7) // 8 + 1
         buf = bv.fresh_bytes("B", nbytes)
-        enc = lib.encodings.IntegerDataEncoding(w, enc_name, byte_order=order)
+        # ctxcal: the encoding carries a context calibrator whose context does NOT hold for this packet (and no default calibrator): the field is
+        # uncalibrated and must still come out as the exact integer
+        enc = lib.encodings.IntegerDataEncoding(w, enc_name, byte_order=order, context_calibrators=unmatched_context(lib) if ctxcal else None)
         ptype = lib.parameter_types.IntegerParameterType("T", enc)
         packet = lib.packets.CCSDSPacket(raw_data=buf)
         packet.raw_data.pos = off
-        inputs = {"buf": buf, "w": w, "enc": enc_name, "order": order, "off": off}
+        if ctxcal:
+            packet["MODE"] = lib.common.IntParameter(3)
+        inputs = {"buf": buf, "w": w, "enc": enc_name, "order": order, "off": off, "ctxcal": ctxcal}
         try:
             v = ptype.parse_value(packet)
         except Exception as e:     # noqa: BLE001 - a library outcome the property does not allow here
@@ -86,7 +96,7 @@ class IntField(Harness):
             rv = v.raw_value
             obl.append(("raw_value equals value", isinstance(rv, bv.SymInt) and z3.eq(z3.simplify(rv.t), z3.simplify(v.t))))
         return result("ok", obl, observe={"value": v, "raw": getattr(v, "raw_value", None), "pos": packet.raw_data.pos, "class": type(v).__name__},
-                      inputs={"buf": buf, "w": w, "enc": enc_name, "order": order, "off": off})
+                      inputs=inputs)
 
 
 PAIRS = [(16, 32), (32, 16), (8, 16), (16, 8), (24, 32), (16, 16), (8, 8)]
@@ -248,13 +258,18 @@ def concrete(req):
         return out
     buf = bytes.fromhex(i["buf"]["hex"])
     if req["kind"] == "int-field":
-        enc = encodings.IntegerDataEncoding(i["w"], i["enc"], byte_order=i["order"])
+        class L:
+            from space_packet_parser.xtce import calibrators, comparisons
+        enc = encodings.IntegerDataEncoding(i["w"], i["enc"], byte_order=i["order"], context_calibrators=unmatched_context(L) if i.get("ctxcal") else None)
         pt = parameter_types.IntegerParameterType("T", enc)
     else:
         enc = encodings.FloatDataEncoding(i["w"], encoding=i["enc"], byte_order=i["order"])
         pt = parameter_types.FloatParameterType("T", enc)
     pkt = packets.CCSDSPacket(raw_data=buf)
     pkt.raw_data.pos = i["off"]
+    if i.get("ctxcal"):
+        from space_packet_parser import common
+        pkt["MODE"] = common.IntParameter(3)
     try:
         v = pt.parse_value(pkt)
     except Exception as e:   # noqa: BLE001
@@ -290,7 +305,7 @@ def judge(req, got):
     bits = "".join(f"{b:08b}" for b in buf)
     w, off = i["w"], i["off"]
     field = bits[off:off + w]
-    desc = f"{req['kind']} w={w} {i['enc']} {i['order']} offset {off} on {buf.hex()}"
+    desc = f"{req['kind']} w={w} {i['enc']} {i['order']} offset {off} on {buf.hex()}" + (" (encoding with a context calibrator whose context does not hold)" if i.get("ctxcal") else "")
     if got.get("cls") != "ok":
         return "reproduced", f"{desc}: raised {got.get('cls')}"
     if got["pos"] != off + w:
